@@ -20,6 +20,8 @@ use crate::mutate::{Fam, MutSpace};
 /// Bound on a single allocation request of the parser: PARSE_FACTOR x input length + ALLOC_SLACK bytes.
 pub const PARSE_FACTOR: usize = 16;
 pub const ALLOC_SLACK: usize = 64 << 10;
+/// Bound on a single allocation request of verify(): VERIFY_FACTOR x (input + 16 x claimed trace length) + ALLOC_SLACK
+pub const VERIFY_FACTOR: usize = 64;
 
 fn alloc_class(what: &str, max_request: usize, reference: usize) -> String {
     let r = max_request as f64 / (reference.max(1) as f64);
@@ -158,7 +160,18 @@ impl<'a> PairFn for Hostile<'a> {
                     let pc = p2.clone();
                     let claimed_n: usize = p2.context.trace_info().length();
                     let (res, meter) = kit::alloc::measure(|| verify_with::<B, H, Coin<H>>(pc, ps, pol));
-                    out.class(&alloc_class("verify", meter.max_request, mbytes.len() + claimed_n.min(1usize << 40) * 16));
+                    let reference = mbytes.len() + claimed_n.min(1usize << 40) * 16;
+                    out.class(&alloc_class("verify", meter.max_request, reference));
+                    // memory: the verifier works on the openings, the out-of-domain frame and the FRI proof (all inside
+                    // the input) and on per-column / per-cycle tables of the computation description; the harness AIR
+                    // itself holds up to trace-length many asserted values and periodic values. Nothing needs a table
+                    // of the size of the LDE domain, let alone of an untrusted count.
+                    if claimed_n <= (1 << 20) && meter.max_request > VERIFY_FACTOR * reference + ALLOC_SLACK {
+                        out.violation(
+                            format!("verify requests memory out of proportion to its input (one allocation above {VERIFY_FACTOR} x (input + 16 x claimed trace length) + {} KiB)", ALLOC_SLACK >> 10),
+                            json!({"case": info(), "mutation_class": mclass(), "largest_request_bytes": meter.max_request, "claimed_trace_length": claimed_n, "public_inputs": (["matching", "different shape", "minimal"][pi])}),
+                        );
+                    }
                     match res {
                         VerifyOutcome::Accept => out.class("parsed and accepted"),
                         VerifyOutcome::Reject(_) => out.class("parsed and rejected"),
@@ -172,6 +185,103 @@ impl<'a> PairFn for Hostile<'a> {
     }
 }
 
+/// Proofs only a prover with its own coin can make: as many or more queries than LDE points. Every commitment, the
+/// out-of-domain frame and the FRI proof are consistent, so `verify()` gets past all earlier checks and reaches the
+/// query phase with `num_queries >= lde_domain_size`.
+struct CustomProver<'a> {
+    st: &'a Statement,
+    out: &'a mut CaseOut,
+    pair: usize,
+}
+
+impl<'a> PairFn for CustomProver<'a> {
+    type Out = ();
+    fn call<B: Fld, H: ElementHasher<BaseField = B> + Send + Sync + 'static>(self)
+    where
+        H::Digest: 'static,
+    {
+        let CustomProver { st, out, pair } = self;
+        let pname = PAIRS[pair];
+        let (cols, _vals, pubs) = starkit::build_statement::<B>(st);
+        let info = json!({"pair": pname, "trace_length": st.spec.n, "blowup": st.opts.blowup, "queries": st.opts.queries, "extension": st.opts.ext});
+        let (res, _) = starkit::prove_with::<B, H, starkit::reccoin::LaxCoin<H>>(st, &cols, &pubs, None);
+        let proof = match res {
+            starkit::ProveOutcome::Proof(p) => *p,
+            other => {
+                out.class(&format!("custom prover: no proof ({})", format!("{:?}", other).chars().take(40).collect::<String>()));
+                out.evals(1);
+                return;
+            },
+        };
+        out.class("custom prover: proof with at least as many queries as LDE points produced");
+        let bytes = proof.to_bytes();
+        let parsed = match kit::pan::catch(|| Proof::from_bytes(&bytes)) {
+            Ok(Ok(p)) => p,
+            Ok(Err(_)) => {
+                out.class("custom prover: proof rejected by the parser");
+                out.evals(1);
+                return;
+            },
+            Err(p) => {
+                out.violation(format!("Proof::from_bytes panics: {}", p.class()), info);
+                return;
+            },
+        };
+        for pol in [AcceptableOptions::MinConjecturedSecurity(0), AcceptableOptions::MinProvenSecurity(0), AcceptableOptions::OptionSet(vec![st.opts.to_options()])] {
+            match verify_with::<B, H, Coin<H>>(parsed.clone(), &pubs, &pol) {
+                VerifyOutcome::Accept => out.class("custom prover: parsed and accepted"),
+                VerifyOutcome::Reject(_) => out.class("custom prover: parsed and rejected"),
+                VerifyOutcome::Panic(c) => out.violation(format!("verify panics: {c}"), json!({"case": info, "made_by": "a prover with its own coin (queries >= LDE points)"})),
+            }
+        }
+        out.evals(3);
+        out.nontrivial_n(3);
+    }
+}
+
+pub fn custom_prover_subs(run: &Arc<Run>) -> Vec<Arc<dyn Sub>> {
+    let thorough = run.tier().is_thorough();
+    let seed = run.seed();
+    let pairs: Vec<usize> = if thorough { (0..12).collect() } else { vec![0, 4, 8, 11] };
+    // (trace length, blowup, queries): queries >= LDE points
+    let shapes: Vec<(usize, usize, usize)> = vec![(8, 2, 16), (8, 2, 17), (8, 2, 27), (8, 2, 255), (8, 4, 32), (8, 4, 255), (16, 2, 32), (16, 2, 255), (16, 4, 64), (16, 8, 128), (32, 4, 128), (32, 4, 255), (64, 2, 128), (64, 2, 255)];
+    let mut cases: Vec<(usize, Statement)> = vec![];
+    for &pair in pairs.iter() {
+        for &(n, blowup, queries) in shapes.iter() {
+            for ext in [1u8, 2, 3] {
+                if ext == 3 && !pair_has_cubic(pair) {
+                    continue;
+                }
+                let mut pt = family::base_point();
+                pt.d[2] = family::LENS.iter().position(|l| *l == n).unwrap();
+                let Some(mut st) = family::statement(&pt, seed) else { continue };
+                st.opts.blowup = blowup;
+                st.opts.queries = queries;
+                st.opts.ext = ext;
+                st.opts.folding = 2;
+                st.opts.rem_deg = 1;
+                if blowup < st.spec.min_blowup() {
+                    continue;
+                }
+                cases.push((pair, st));
+            }
+        }
+    }
+    let cases = Arc::new(cases);
+    let c2 = cases.clone();
+    vec![sub_t(
+        "custom_prover.queries_ge_lde",
+        cases.len() as u64,
+        120,
+        true,
+        move |idx, out| {
+            let (pair, st) = &cases[idx as usize];
+            dispatch(*pair, CustomProver { st, out, pair: *pair });
+        },
+        move |idx| json!({"pair": PAIRS[c2[idx as usize].0], "trace_length": c2[idx as usize].1.spec.n, "options": format!("{:?}", c2[idx as usize].1.opts)}),
+    )]
+}
+
 pub fn subs(run: &Arc<Run>) -> Vec<Arc<dyn Sub>> {
     let thorough = run.tier().is_thorough();
     let seed = run.seed();
@@ -180,7 +290,7 @@ pub fn subs(run: &Arc<Run>) -> Vec<Arc<dyn Sub>> {
     let mut seeds = seed_points(thorough);
     seeds.push(("dummy proof", family::base_point()));
     let pairs: Vec<usize> = if thorough { (0..12).collect() } else { vec![0, 8, 11] };
-    let mut subs: Vec<Arc<dyn Sub>> = vec![];
+    let mut subs: Vec<Arc<dyn Sub>> = custom_prover_subs(run);
     let chunk = 1024u64;
     for &pair in pairs.iter() {
         for (label, pt) in seeds.iter() {
